@@ -386,7 +386,9 @@ func (server *Server) callService(ctx *Context) {
 	} else if ctx.f.WithContext() {
 		var c context.Context
 		if !server.noCopy && server.shared {
-			c = context.WithValue(context.Background(), BufferContextKey, ctx.value)
+			// the context buffer is a pooled buffer of its own: FreeContextBuffer puts it
+			// into the pool, where a window of the read buffer must never end up
+			c = context.WithValue(context.Background(), BufferContextKey, GetBuffer(len(ctx.value)))
 		} else {
 			c = context.Background()
 		}
